@@ -369,7 +369,7 @@ def b_copy_(P, s, a, b, c, name):
         d = P.vals[i]
         j = P.pick(s[1], lambda v: isinstance(v, QBytesTensor) and v.qtype == d.qtype and v.shape == d.shape and v is not d and (v.axis == d.axis or v.axis is None))
         extra = []
-        if j is None or b % 3 == 1:
+        if j is None or b % 3 != 0:
             # fresh source: same layout, or (b % 3 == 1) a per-tensor source of ANOTHER float dtype
             sdt = d.dtype if b % 3 != 1 else DTYPES[(DTYPES.index(d.dtype) + 1 + b % 2) % 3] if d.dtype in DTYPES else torch.float32
             x = _values(list(d.shape), sdt, 4000 + b, 1.0)
@@ -611,6 +611,10 @@ for _n in ("mm", "matmul2", "bmm", "matmul", "linear", "linear_nobias", "linear_
     BUILDERS[_n] = b_contract
 BUILDERS["pad"] = b_pad
 
+# operations whose quantized result is known to keep a reference to its input's scale and/or payload (finding D26/D33)
+SHARING_OPS = {"view", "reshape", "flatten", "unflatten", "t", "transpose", "permute", "mT", "slice", "select", "getitem0", "narrow", "unsqueeze", "squeeze",
+               "expand", "expand_as1", "split", "split_sizes", "chunk", "unbind", "neg", "relu", "frelu", "cat", "stack", "where", "mul_scalar", "rmul_scalar",
+               "div_scalar", "detach", "partner-like", "partner-like-other-qtype", "partner-fresh", "src_qa", "src_qw", "copy_", "to_copy", "contiguous", "to_dtype"}
 SOURCES = ["src_qa", "src_qa", "src_qw", "src_qbits", "src_plain"]
 INTERCEPTED = ["view", "reshape", "flatten", "unflatten", "t", "transpose", "permute", "mT", "slice", "select", "getitem0", "narrow", "unsqueeze",
                "squeeze", "expand", "expand_as1", "cat", "stack", "split", "split_sizes", "chunk", "unbind", "clone", "detach", "contiguous", "to_copy",
@@ -619,7 +623,7 @@ INTERCEPTED = ["view", "reshape", "flatten", "unflatten", "t", "transpose", "per
 PASSTHROUGH = ["abs", "exp", "tanh", "gelu", "silu", "sum", "mean", "amax", "argmax", "sort", "cumsum", "log_softmax", "layer_norm", "topk", "zeros_like",
                "ones_like", "sign", "square", "isfinite", "std", "masked_fill", "tolist_sum", "numel", "size", "dim", "add", "sub", "mul_tensor",
                "div_tensor", "maximum", "equal", "cosine_similarity", "gt", "eq", "index_select", "flip"]
-SEMANTIC = ["neg", "relu", "frelu", "mul_scalar", "rmul_scalar", "div_scalar", "where", "lt", "lt_m", "lt_scalar", "softmax", "copy_", "cat", "stack", "split", "t", "transpose"]
+SEMANTIC = ["clone", "detach", "neg", "relu", "frelu", "mul_scalar", "rmul_scalar", "div_scalar", "where", "lt", "lt_m", "lt_scalar", "softmax", "copy_", "cat", "stack", "split", "t", "transpose"]
 ALLOPS = INTERCEPTED + INTERCEPTED + SEMANTIC + SEMANTIC + PASSTHROUGH  # intercepted ops (and those acting on codes) more likely
 
 
@@ -823,7 +827,13 @@ def run_program(case, mode, out=None):
         if bld is None or not P.vals:
             stats["skipped"] += 1
             continue
-        r = bld(P, step["s"], step["a"], step["b"], step["c"], name)
+        r = cut(bld, P, step["s"], step["a"], step["b"], step["c"], name)
+        if isinstance(r, Raised):
+            # building an operand (quantizing a fresh tensor with the scale / layout of an existing quantized one through the
+            # public API) failed: the existing tensor does not have the form its metadata promises
+            out.fail(f"{name}/operand-construction/raises:{r.type}", f"constructing a companion operand from a pool tensor raised {r.type}: {r.text}")
+            stats["skipped"] += 1
+            continue
         if r is None:
             stats["skipped"] += 1
             continue
@@ -970,6 +980,13 @@ def run_program(case, mode, out=None):
 
                     shared = isq(v) and isq(dest) and (_ptr(v._scale) == _ptr(dest._scale) or _ptr(v._data) == _ptr(dest._data))
                     who = "bystander-sharing-inner-tensors" if shared else f"{kind_key(v)}-bystander"
+                    if shared:
+                        # the op that made the two tensors share: the producer of the younger of the two entries. The recorded
+                        # finding covers the operations that are known to hand their input's scale / payload on by reference;
+                        # sharing introduced by any other operation (e.g. a clone that is not a copy) is a new root cause.
+                        maker = P.origin[max(j, idxs[inplace])]
+                        if maker not in SHARING_OPS:
+                            who = f"bystander-sharing-inner-tensors-via-{maker}"
                     out.fail(f"{name}/frame/{who}", f"step {name} on {kinds} changed pool entry {j} ({describe(v)}, made by {P.origin[j]}) that the float program leaves untouched")
                     break
         elif inplace is None:
